@@ -789,6 +789,25 @@ class Weaver:
             return toks[code[0]].pos + 1
         if where == "end":
             return toks[code[-1]].pos
+        if where == "tail":
+            # before the tail expression of the body (the value the function returns), whatever its text is; a body without a
+            # tail expression: same as `end`; a tail that is itself a block expression (`match .. {..}`): not supported -> anchor loss
+            last = len(code) - 2
+            if last < 1 or toks[code[last]].text == ";":
+                return toks[code[-1]].pos
+            if toks[code[last]].text == "}":
+                raise AnchorLoss("fn %s: `at tail` (spec line %d): the tail expression ends in a block" % (qname, ln))
+            k, depth = last, 0
+            while k >= 1:
+                tx = toks[code[k]].text
+                if tx in (")", "]"):
+                    depth += 1
+                elif tx in ("(", "["):
+                    depth -= 1
+                elif depth == 0 and tx in (";", "{", "}"):
+                    break
+                k -= 1
+            return toks[code[k + 1]].pos
         m = re.match(r"^(before-stmt|before|after)\s+(last|\d+)\s+`(.*)`$", where)
         if not m:
             raise AnchorLoss("spec line %d: bad anchor %r" % (ln, where))
